@@ -136,6 +136,8 @@ class ScriptSim(mosaik_api_v3.Simulator):
         return self.meta
 
     def create(self, num, model, **kw):
+        if model == "P":
+            return [{"eid": f"p{i}", "type": "P", "children": [{"eid": str(i), "type": "M"}]} for i in range(num)]
         return [{"eid": str(i), "type": model} for i in range(num)]
 
     def step(self, time, inputs, max_advance=None):
